@@ -128,6 +128,20 @@ Corollary alive_unchanged : forall c B mevs, cfg_ok c = true -> wf c B mevs = tr
   exit (run c (unmark mevs)) = exit (run c (erase c B mevs)).
 Proof. intros c B mevs C W. exact (f_equal k_exit (noninterference c B mevs C W)). Qed.
 
+(* The model has ONE constructor for "the handler raises" (`ORaise`; `ORaiseRpc code` for a JSON-RPC
+   error raised on purpose, which keeps its code): Model/Endpoint.v does not look at the class, the
+   arguments or the text of the exception.  Clauses (ii)-(iv) therefore SAY that containment does not
+   depend on what is raised; that the real code agrees is carried by the tie (harness/c06.py `EXC`):
+   every raising member, the chained ones included, is run over 29 exception shapes - no arguments /
+   bare assert, several / int / dict / bytes arguments, non-ASCII and multi-line text, the
+   ConnectionError family, OSError, TimeoutError, KeyError, IndexError, AttributeError, TypeError,
+   ValueError, StopIteration / StopAsyncIteration, an exception whose __str__ raises, __notes__,
+   ExceptionGroup, IncompleteReadError, UnicodeDecodeError, RecursionError, MemoryError, PyglsError -
+   and six JsonRpcException classes.  Outside "raises" by design: BaseExceptions that are not
+   Exceptions (SystemExit - pygls' own exit path -, KeyboardInterrupt, GeneratorExit,
+   asyncio.CancelledError); what the code does with them is probed and recorded in the evidence, not
+   judged (finding candidates F31, F32 in notes/findings_C06.json). *)
+
 (* ---------------------------------------------------------------- the catalogue and its reports *)
 Definition b_raise (k : kind) : behav := mkB k ORaise Propagate.
 Definition b_rpc (k : kind) : behav := mkB k (ORaiseRpc (-32001)) Propagate.
